@@ -1,7 +1,7 @@
 (* parse_arguments is total and memory-safe on every command line and every option table. *)
 From Coq Require Import List NArith ZArith Bool Lia Arith.
 From Coq Require Import ZifyBool ZifyNat ZifyN.
-From FV Require Import Str.StrModel Str.StrProofs Cmdline.CmdlineModel.
+From FV Require Import Str.StrModel Str.StrProofs Str.StrNumProofs Cmdline.CmdlineModel.
 Import ListNotations.
 Local Open Scope N_scope.
 
@@ -224,3 +224,18 @@ Proof. vm_compute. reflexivity. Qed.
 Lemma parse_wrapping_check_refuted :
   fst (run_cmdline_with (sub_string_with chk_wrapping) [([97], true)] d32_cl false) = UB oob.
 Proof. lazy. reflexivity. Qed.
+
+(* as_number<T>: the to_number call inside the callback runs on a view handed out by parse_arguments, so it is
+   total and in bounds too (C20 for the composition); as_string_view / store_const only assign their target *)
+Lemma run_apply_view_to_number tbl cl null_cl t : N.of_nat (length cl) < W64 ->
+  forall idx v, In (IApply idx v) (snd (run_cmdline tbl cl null_cl)) ->
+  exists r reads, to_number (run_mem tbl cl) t v = (Ok r, reads) /\ Forall (in_mem (run_mem tbl cl)) reads.
+Proof.
+  intros Hl idx v Hin. pose proof (run_cmdline_safe tbl cl null_cl Hl) as S.
+  destruct (run_cmdline tbl cl null_cl) as [[a|w|w|] items]; cbn [snd] in Hin; try contradiction.
+  all: rewrite Forall_forall in S; specialize (S _ Hin); cbn [run_item_ok] in S.
+  all: assert (Hv : valid_view (run_mem tbl cl) v)
+         by (destruct S as [->|(off & len & -> & Hb)]; [exact I|exists cl; split; [reflexivity|exact Hb]]).
+  all: destruct (StrNumProofs.to_number_total_safe (run_mem tbl cl) t v Hv) as (r & reads & E & _ & _ & Hm).
+  all: exists r, reads; split; assumption.
+Qed.
